@@ -29,6 +29,8 @@ vars == <<idx, bds, outcome, emitted, maxEmitted, pkid>>
 \* guard class ">= 2^H" and is concretised by the replayer)
 CONSTANT JumpArgs(_)      \* idx |-> set of arguments
 
+Setup == SetupOf(0)
+
 ---------------------------------------------------------------------------
 
 Init == /\ idx = 0
